@@ -883,7 +883,7 @@ func (e *Exec) loopWrites(fn *ssa.Function, body map[*ssa.BasicBlock]bool) (map[
 					return
 				}
 				if ct := e.W.Contracts[shortName(f)]; ct != nil && !ct.Inline && len(ct.Ensures)+len(ct.Requires) > 0 {
-					if len(ct.Assigns) > 0 {
+					if !ct.Pure {
 						all = true
 					}
 					return
